@@ -528,7 +528,7 @@ Qed.
 Theorem compile_correct bd pkg :
   valid_bundle snake camel screaming bd = true -> (exists f, In f bd /\ bfile_pkg f = pkg) ->
   exists D, compile_package snake camel screaming bd pkg = Ok D /\
-            package_contract snake camel screaming bd pkg D.
+            package_contract snake camel screaming true bd pkg D.
 Proof.
   intros Hv Hex. destruct (compile_total bd pkg Hv Hex) as [D HD]. exists D. split; [exact HD|].
   apply compile_sound. exact HD.
